@@ -227,6 +227,14 @@ func c07EnumerateSmall(thorough bool) []c07ID {
 			}
 		}
 	}
+	// locals that are declared without a value and only ever read still need their registers
+	for k := 1; k <= 8; k++ {
+		for use := 0; use < 4; use++ {
+			for env := 0; env < 3; env++ {
+				ids = append(ids, c07ID{Family: "uninit", P: []int{k, use, env}})
+			}
+		}
+	}
 	// the implicit `arg` table of vararg functions occupies a register right behind the parameters
 	for k := 0; k <= 6; k++ {
 		for use := 0; use < c07CompatArgUses; use++ {
@@ -303,6 +311,10 @@ func c07Make(id c07ID) *c07Case {
 	case "ctor":
 		if need(3) {
 			return c07MakeCtor(id, p[0], p[1], p[2])
+		}
+	case "uninit":
+		if need(3) {
+			return c07MakeUninit(id, p[0], p[1], p[2])
 		}
 	case "compatarg":
 		if need(2) {
@@ -566,6 +578,38 @@ func c07MakeConsts(id c07ID, v, k int) *c07Case {
 		return nil
 	}
 	return &c07Case{ID: id, Src: sb.String(), Exec: true, Expect: expect, ExSig: fmt.Sprintf("consts/v%d", v), Note: fmt.Sprintf("%s (k=%d)", note, k)}
+}
+
+// c07MakeUninit: `local v1, ..., vk` without values as the FIRST statement of a function (env 0: main
+// chunk, 1: function without parameters, 2: function with two parameters); the last one is only read.
+func c07MakeUninit(id c07ID, k, use, env int) *c07Case {
+	if k < 1 || use < 0 || use > 3 || env < 0 || env > 2 {
+		return nil
+	}
+	vs := c07Names("v", 1, k)
+	last := vs[k-1]
+	var body string
+	var want float64
+	switch use {
+	case 0:
+		body, want = "local "+strings.Join(vs, ",")+" return "+last+" == nil and 1 or 0", 1
+	case 1:
+		body, want = "local "+strings.Join(vs, ",")+" v1 = "+last+" return v1 == nil and 1 or 0", 1
+	case 2:
+		body, want = "local "+strings.Join(vs, ",")+" local t = {"+last+"} return #t", 0
+	case 3:
+		body, want = "local "+strings.Join(vs, ",")+" return select('#', "+last+")", 1
+	}
+	var src string
+	switch env {
+	case 0:
+		src = body
+	case 1:
+		src = "local function f() " + body + " end return f()"
+	case 2:
+		src = "local function f(p, q) " + body + " end return f(1, 2)"
+	}
+	return &c07Case{ID: id, Src: src, Exec: true, Expect: c07ExpectNum(want), ExSig: fmt.Sprintf("uninit/u%d/e%d", use, env), Note: fmt.Sprintf("%d locals declared without values as the first statement, the last one only read (use %d, surroundings %d)", k, use, env)}
 }
 
 const c07CompatArgUses = 7
